@@ -55,8 +55,8 @@ CHECKS['C12'] = dict(
    note='Coq kernel, no axioms; extraction + OCaml driver; Rust harness; independent Python grid oracle; not covered: ConversionFailed in TryFrom, f64 histories, usize overflow of height*width', ref='DESIGN.md §5 C12')
 CHECKS['C13'] = dict(
    technique='Coq proof (panic-aware model never panics and terminates within MAX_ITERATIONS for every matrix and arithmetic; shape/normalisation/Rayleigh-quotient facts on Ok; exit means small relative change) + bit-for-bit correspondence incl. runs to the iteration cap + exact residual/eigenvalue oracle',
-   text='4 theorems: c13_total (all instances: no panic, at most MAX_ITERATIONS iterations, n x 1 vector or NoConvergence, non-square/empty rejected), c13_shape_norm (R: largest component 1, lambda = Rayleigh quotient), c13_exit_means_small_change, c13_accuracy_partial (n = 1 only; the spectral accuracy bounds are decided by the oracle on symmetric Q D Q^T with gap <= 1/2)',
-   note=COMMON_NOTE + '; accuracy half (residual and eigenvalue bounds) is measured by the oracle, not proved', ref='DESIGN.md §5 C13')
+   text='6 theorems: c13_rayleigh_error_bound (under an explicit orthonormal eigen-decomposition with |lam_i| <= g |lam_0|: the k-th Rayleigh quotient of the model\'s own normalised iteration satisfies |rho_k - lam_0| c_0^2 <= 2 |lam_0| g^(2k+2) sum c_i^2), c13_rayleigh_residual (the returned eigenvalue minimises the residual of the returned vector), c13_total (all instances: no panic, at most MAX_ITERATIONS iterations, n x 1 vector or NoConvergence, non-square/empty rejected), c13_shape_norm (R: largest component 1, lambda = Rayleigh quotient), c13_exit_means_small_change, c13_accuracy_partial (n = 1 only; the spectral accuracy bounds are decided by the oracle on symmetric Q D Q^T with gap <= 1/2)',
+   note=COMMON_NOTE + '; the link from the stopping rule to the eigenvalue error and the eigenvector residual bound are measured by the oracle, not proved', ref='DESIGN.md §5 C13')
 
 CHECKS['C08'] = dict(
    technique='Coq proof (Gaussian elimination with scaled partial pivoting on functional matrices: any returned vector solves A x = b; every matrix with a non-trivial left null vector is refused for every right-hand side; shape errors, no panic; triangular substitutions) + bit-for-bit correspondence on all container types + exact-rational oracle',
@@ -64,8 +64,8 @@ CHECKS['C08'] = dict(
    note=COMMON_NOTE + '; componentwise backward error and "well-conditioned systems are never refused" are measured by the oracle', ref='DESIGN.md §5 C08')
 CHECKS['C15'] = dict(
    technique='Coq proof (normal equations of the closed-form line and of the polynomial fit via c08_solves, optimality identity SSE(c\')=SSE(c)+sum(p_c-p_c\')^2, statistics formulas, gradient-descent error recurrence) + bit-for-bit correspondence + exact oracle scaled by the moment-matrix condition',
-   text='10 theorems: c15_ls_normal, c15_poly_normal, c15_poly_outcomes, c15_optimal (no other coefficients give a smaller sum of squares), c15_order1_is_line, c15_order_monotone, c15_stats (r2, std_err, predict are the textbook functions of the returned coefficients for all three regressors), c15_gd_iterates/recurrence (e\' = (I - alpha H) e with the normal-equation solution as fixed point); pivot tolerance re-read from polynomial.rs into the model on every run',
-   note=COMMON_NOTE + '; the gradient-descent contraction bound rho^k is checked by the oracle only', ref='DESIGN.md §5 C15')
+   text='13 theorems, none partial: c15_gd_contraction (Euclidean error to the optimum contracts by rho per step for any rho dominating the eigenvalues of I - alpha H), c15_gd_stable_step, c15_gd_converges; c15_ls_normal, c15_poly_normal, c15_poly_outcomes, c15_optimal (no other coefficients give a smaller sum of squares), c15_order1_is_line, c15_order_monotone, c15_stats (r2, std_err, predict are the textbook functions of the returned coefficients for all three regressors), c15_gd_iterates/recurrence (e\' = (I - alpha H) e with the normal-equation solution as fixed point); pivot tolerance re-read from polynomial.rs into the model on every run',
+   note=COMMON_NOTE, ref='DESIGN.md §5 C15')
 
 CHECKS['C06'] = dict(
    technique='Coq proof (loop as structural recursion on the cap: soundness of every returned value, initial-guess rejection, no panic / no endless loop for every arithmetic, bracket invariants, IVT-based location of a root, exit-before-cap implies Ok under a Lipschitz condition) + bit-for-bit correspondence (libm-bridged for the multivariate type) + exact oracle',
